@@ -18,7 +18,11 @@ RULE = ("daemon part: fresh ASan bus per history with a generated <servicedir> o
         "service_start_timeout; 2..5 raw senders fire bursts of method calls, unicast signals (default flags = auto-start) "
         "and StartServiceByName at the same and at different names, either chunk-interleaved over all sockets or sender by "
         "sender with barriers (which establishes a cross-sender order), again while the start is pending; each round ends with one "
-        "more StartServiceByName per name whose answer marks the end of the start. Judged: every call "
+        "more StartServiceByName per name whose answer marks the end of the start. Departure rounds: waiters join a pending "
+        "start one by one with a driver round-trip after each (arrival order known), one or two of them - not the last - close "
+        "their sockets, the bus announces them gone, and only then does the start end (gated stub: takes the name / exits when "
+        "the check creates a go-file; or the start timeout): every surviving waiter must still get its delivery or exactly one "
+        "error, the departed are not judged. Judged: every call "
         "and StartServiceByName answered exactly once (service reply / code 1 or 2 / error); delivered XOR error; nothing is "
         "delivered and every caller gets an error when the name is never taken; delivery exactly once, per-sender order and "
         "barrier-established global order at the service; process-start log vs the bus's activation log (no second start "
@@ -36,18 +40,29 @@ STUB = os.path.join(os.path.dirname(os.path.dirname(os.path.abspath(__file__))),
 PYTHON = "/usr/bin/python3"
 
 SUCCESS = ("quick", "delay", "delay-connect")
+NOC_RULE = b"type='signal',sender='org.freedesktop.DBus',interface='org.freedesktop.DBus',member='NameOwnerChanged'"
 
 
 def behaviour_class(beh):
     kind, _, arg = beh.partition(":")
+    pre = ""
+    if kind.startswith("gate-"):
+        pre, kind = "gate-", kind[5:]
     if kind in ("exit-before", "exit-after"):
         n = int(arg)
-        return "%s-%s" % (kind, "0" if n == 0 else ("sig" if n < 0 else "n"))
-    return kind
+        return "%s%s-%s" % (pre, kind, "0" if n == 0 else ("sig" if n < 0 else "n"))
+    return pre + kind
+
+
+def is_gated(beh):
+    return beh.startswith("gate-")
 
 
 def never_owns(beh):
-    return beh.partition(":")[0] not in SUCCESS
+    kind = beh.partition(":")[0]
+    if kind.startswith("gate-"):
+        kind = kind[5:]
+    return kind not in SUCCESS
 
 
 def is_slow(beh):
@@ -58,20 +73,26 @@ def is_slow(beh):
 
 def pick_behaviour(rng, allow_slow):
     r = rng.random()
-    if r < 0.34:
+    if r < 0.26:
         return "quick"
-    if r < 0.48:
+    if r < 0.37:
         return "delay:%d" % rng.randint(60, 400)
-    if r < 0.55:
+    if r < 0.43:
         return "delay-connect:%d" % rng.randint(40, 300)
-    if r < 0.65:
+    if r < 0.50:
         return "exit-before:%d" % rng.choice([1, 2, 77, 127, 255, -9, -15])
-    if r < 0.75:
+    if r < 0.57:
         return "exit-after:%d" % rng.choice([1, 3, 99, 255, -9, -15])
-    if r < 0.81:
+    if r < 0.62:
         return "exec-missing"
+    if r < 0.70:
+        return "gate-quick"
+    if r < 0.78:
+        return "gate-exit-before:%d" % rng.choice([1, 2, 255, -9, -15])
+    if r < 0.86:
+        return "gate-exit-after:%d" % rng.choice([1, 3, 99, -9, -15])
     if not allow_slow:
-        return rng.choice(["quick", "exit-before:1", "exit-after:2"])
+        return rng.choice(["quick", "gate-exit-before:1", "gate-exit-after:2", "gate-quick"])
     return rng.choice(["never", "never", "other", "other", "exit-before:0", "exit-after:0"])
 
 
@@ -132,6 +153,8 @@ class History(object):
         self.service_files = {}
         self.cur = "start"
         self.activated = set()
+        self.obs = None
+        self.departers = []
 
     # -------------------------------------------------------------- plumbing
     def witness(self, extra=None):
@@ -181,6 +204,8 @@ class History(object):
         self.config = self.daemon.config_text
         if not self.daemon.started():
             raise RuntimeError("daemon did not start: " + self.daemon.stderr_text()[-500:])
+        self.obs = client.connect(self.daemon.sock, self.clock)
+        self.obs.bus_call(b"AddMatch", b"s", [NOC_RULE])
         for i in range(rng.randint(2, 5)):
             self.senders.append(client.connect(self.daemon.sock, self.clock))
         self.steps.append("services: %s; service_start_timeout=%d ms; senders: %s" % (
@@ -292,6 +317,8 @@ class History(object):
         else:
             self.write_interleaved(batch)
         allb = list(batch)
+        for t in targets:
+            self.open_gate(t)
         if mode == "mixed" or rng.random() < 0.3:
             # a second burst while the start is (probably) still pending
             if rng.random() < 0.5:
@@ -327,6 +354,141 @@ class History(object):
         self.judge(allb, mode)
         for t in targets:
             self.activated.add(t)
+
+    def open_gate(self, name):
+        if is_gated(self.names[name]):
+            with open(self.logpath(name) + ".go", "w"):
+                pass
+
+    def close_gate(self, name):
+        try:
+            os.unlink(self.logpath(name) + ".go")
+        except OSError:
+            pass
+
+    def await_gone(self, unique):
+        while True:
+            rec = self.obs.recv(timeout=client.WATCHDOG)
+            m = rec.msg
+            if m.type == 4 and m.known().get(3) == b"NameOwnerChanged" and m.known().get(7) == b"org.freedesktop.DBus" \
+                    and len(m.body) == 3 and m.body[0] == unique and m.body[2] == b"":
+                break
+        self.obs.barrier()
+        self.obs.take_inbox()
+
+    def departure_candidates(self):
+        return [n for n in sorted(self.names) if is_gated(self.names[n]) or is_slow(self.names[n])]
+
+    def departure_round(self, rno, t):
+        """Waiters join a pending start one by one (driver round-trip after each: arrival order known); one or two of them,
+        not the last, close their sockets while the start is still pending; only then is the start allowed to end.
+        Every surviving waiter must still get its delivery or its error; the departed ones are not judged."""
+        rng = self.rng
+        beh = self.names[t]
+        bc = behaviour_class(beh)
+        self.cur = "departure+" + bc
+        self.close_gate(t)
+        n_wait = rng.randint(3, 6)
+        n_dep = 1 if rng.random() < 0.75 else 2
+        # positions of the departing waiters: never the last; mostly behind at least one survivor
+        lo = 1 if rng.random() < 0.8 else 0
+        pos = sorted(rng.sample(range(lo, n_wait - 1), min(n_dep, n_wait - 1 - lo)))
+        survivors, departed = [], []
+        desc = []
+        for i in range(n_wait):
+            kind = rng.choice(["call", "call", "signal", "start", "start"])
+            if i == 0 and 0 not in pos:
+                kind = rng.choice(["call", "start"])       # the first survivor's answer tells us that the start has ended
+            if i in pos:
+                d = client.connect(self.daemon.sock, self.clock)
+                self.departers.append(d)
+                if kind == "call":
+                    _, data = d.build(1, path=ACT_PATH, iface=ACT_IFACE, member=b"Call", dest=t, sig=b"s", body=[b"departed"])
+                elif kind == "signal":
+                    _, data = d.build(4, path=ACT_PATH, iface=ACT_IFACE, member=b"Sig", dest=t, sig=b"s", body=[b"departed"])
+                else:
+                    _, data = d.build(1, path=client.BUS_PATH, iface=client.BUS, member=b"StartServiceByName", dest=client.BUS,
+                                      sig=b"su", body=[t, 0])
+                try:
+                    d.send_bytes(data)
+                except OSError:
+                    raise client.Closed("send failed")
+                d.barrier()
+                self.epoch += 1
+                departed.append(d)
+                desc.append("%s(departs) %s" % (d.unique.decode(), kind))
+            else:
+                si = rng.randrange(len(self.senders))
+                m = self.make_msg(si, kind, t)
+                m.round = rno
+                m.epoch = self.epoch
+                self.send(si, m.data)
+                self.barrier_all({si})
+                survivors.append(m)
+                desc.append("%s#%d %s" % (self.senders[si].unique.decode(), m.serial, kind))
+        # the settle probe is the last waiter
+        probe = self.make_msg(0, "start", t)
+        probe.round = rno
+        probe.epoch = self.epoch
+        self.send(0, probe.data)
+        self.barrier_all({0})
+        survivors.append(probe)
+        desc.append("%s#%d start(probe)" % (self.senders[0].unique.decode(), probe.serial))
+        self.steps.append("departure round on %s (%s): waiters in arrival order: %s" % (t.decode(), beh, "; ".join(desc)))
+        for d in departed:
+            u = d.unique
+            d.close()
+            self.await_gone(u)
+        self.steps.append("  departed waiters closed and announced gone by the bus; start released now")
+
+        def answered(m):
+            c = self.senders[m.sender]
+            return [r for r in c.log if r.msg.type in (2, 3) and r.msg.known().get(5) == m.serial]
+
+        for c in self.senders:
+            c.pump()
+        all_pending = not any(answered(m) for m in survivors)
+        self.part.count("departure-rounds")
+        self.part.count("departure-rounds:" + ("all-waiters-pending-at-release" if all_pending else "start-ended-early"))
+        self.open_gate(t)
+        deadline = time.time() + self.T / 1000.0 + client.WATCHDOG
+        waitable = [m for m in survivors if m.kind in ("call", "start")]
+        first = waitable[0]
+        r0 = self.senders[first.sender].wait_reply(first.serial, timeout=max(0.05, deadline - time.time()))
+        self.senders[first.sender].inbox.insert(0, r0)
+        failed = r0.msg.type == 3 and r0.msg.known().get(7) == b"org.freedesktop.DBus"
+        starved = []
+        if failed and all_pending:
+            # All survivors were waiting in the one pending start of this name when it was released, and the bus has now
+            # told one of them that it failed.  Errors for all waiters are sent together; after a round-trip of each
+            # sender every surviving waiter therefore has its error.
+            self.part.count("departure-rounds:failed-start")
+            for c in self.senders:
+                c.barrier()
+            for m in survivors:
+                c = self.senders[m.sender]
+                n = len([r for r in c.log if r.msg.type == 3 and r.msg.known().get(5) == m.serial])
+                if n == 0 and not answered(m):
+                    starved.append(m)
+                    self.violation("waiter-without-error-after-failed-start:%s:%s" % (m.kind, bc),
+                                   "the start of %s failed (the first surviving waiter got %s), but the surviving waiter %s#%d (%s), "
+                                   "queued behind a waiter that had disconnected, received nothing"
+                                   % (t.decode(), (r0.msg.known().get(4) or b"?").decode(), c.unique.decode(), m.serial, m.kind))
+                else:
+                    self.part.count("survivors-answered-after-departure")
+        else:
+            if not failed:
+                self.part.count("departure-rounds:successful-start")
+            for m in waitable:
+                self.senders[m.sender].wait_reply(m.serial, timeout=max(0.05, deadline - time.time()))
+                self.part.count("survivors-answered-after-departure")
+        for c in self.senders:
+            c.barrier()
+        self.epoch += 1
+        self.sync_services([t])
+        self.judge([m for m in survivors if m not in starved], "departure")
+        self.part.sig("departure", bc, "failed" if failed else "succeeded", len(pos), pos[0] if pos else -1)
+        self.activated.add(t)
 
     def owner(self, name):
         r = self.senders[0].bus_call(b"GetNameOwner", b"s", [name])
@@ -492,7 +654,18 @@ class History(object):
             if not self.daemon.alive():
                 self.violation("bus-died", "the bus exited during the history")
                 break
-            self.round(rno)
+            cands = [n for n in self.departure_candidates() if rng.random() < 0.5]
+            done = False
+            if cands and rng.random() < 0.45:
+                t = rng.choice(cands)
+                slow_used = getattr(self, "slow_departures", 0)
+                if self.owner(t) is None and not (is_slow(self.names[t]) and slow_used >= 1):
+                    if is_slow(self.names[t]):
+                        self.slow_departures = slow_used + 1
+                    self.departure_round(rno, t)
+                    done = True
+            if not done:
+                self.round(rno)
         if self.daemon.alive():
             self.final_recount()
         self.finish()
@@ -500,7 +673,7 @@ class History(object):
     def finish(self):
         if self.daemon is None or self.daemon.stopped:
             return
-        for c in self.senders:
+        for c in self.senders + self.departers + ([self.obs] if self.obs else []):
             c.close()
         st, err = self.daemon.stop()
         try:
@@ -528,7 +701,7 @@ class History(object):
                         pass
 
     def cleanup(self):
-        for c in self.senders:
+        for c in self.senders + self.departers + ([self.obs] if self.obs else []):
             try:
                 c.close()
             except Exception:
@@ -873,6 +1046,10 @@ def run(tier, seed, replay=None, scale=1.0):
                   "helper-refused:no-service-file", "service-syncs"):
             r.require(k, 1)
         r.require("order-pairs-checked", 200)
+        for k in ("departure-rounds:failed-start", "departure-rounds:successful-start", "departure-rounds:all-waiters-pending-at-release",
+                  "behaviour:gate-quick", "behaviour:gate-exit-before-n", "behaviour:gate-exit-after-n"):
+            r.require(k, 1)
+        r.require("survivors-answered-after-departure", 20)
     r.require("process-starts", 5)
     r.require("helper-invocations", 20)
     r.require("bus-shutdowns-scraped", 3)
@@ -883,6 +1060,9 @@ def run(tier, seed, replay=None, scale=1.0):
         "two 'Activating service' lines) and through the bound starts <= 1 + errors seen by callers",
         "a held signal counts as a waiting sender too: it must be delivered or answered with an error by the time a later "
         "StartServiceByName for the same name has been answered",
+        "departure rounds: 'every surviving waiter has its error once one of them has it and each sender has done a round-trip' "
+        "relies on all of them having been unanswered (hence in the one pending start of that name) when the start was released; "
+        "otherwise only the bounded-progress deadline applies",
         "helper: the -for-tests build does not switch users or clear the environment; 'declares a User' is checked textually; cases "
         "where the first service file found is not plainly well-formed but another directory has a good one are not judged",
     ]
